@@ -98,32 +98,84 @@ proof! {
 	}
 }
 
+const fn parse_env(s: Option<&str>, default: u64) -> u64 {
+	match s {
+		Some(s) => {
+			let b = s.as_bytes();
+			let mut v = 0u64;
+			let mut i = 0;
+			while i < b.len() {
+				v = v * 10 + (b[i] - b'0') as u64;
+				i += 1;
+			}
+			v
+		}
+		None => default,
+	}
+}
+/// body shape of this query
+const NIN: usize = parse_env(option_env!("VH_NIN"), 1) as usize;
+const NOUT: usize = parse_env(option_env!("VH_NOUT"), 2) as usize;
+const NK: usize = parse_env(option_env!("VH_NK"), 1) as usize;
+
 proof! {
-	[secp, hash_mix] fn tx_validate_sound_1_2_1() {
+	[secp, hash_mix] fn tx_validate_sound() {
 		// Transaction::validate == Ok  =>  equation with the fee as the only extra value,
-		// every kernel signature and every range proof consulted and valid, no coinbase features
+		// every kernel signature and every range proof consulted and valid, no coinbase features.
+		// Shape (NIN inputs, NOUT outputs, NK kernels) is concrete per query.
 		#[cfg(kani)]
 		{
 			env::set_chain_type(grin_core::global::ChainTypes::Mainnet);
-			let (ci, vi, ri) = k::any_elem();
-			let (c1, v1, r1) = k::any_elem();
-			let (c2, v2, r2) = k::any_elem();
-			let (ck, vk, rk) = k::any_elem();
-			let off: u16 = nd::any();
-			let (feat, fee) = k::any_features(true);
-			let p1: bool = nd::any();
-			let p2: bool = nd::any();
-			let s1: bool = nd::any();
-			let f1: bool = nd::any();
-			let f2: bool = nd::any();
 			let of = |c: bool| if c { OutputFeatures::Coinbase } else { OutputFeatures::Plain };
+			let mut sv = 0u16; // sum of values: outputs - inputs
+			let mut sr = 0u16;
+			let mut inputs = Vec::new();
+			let mut i = 0;
+			while i < NIN {
+				let (c, v, r) = k::any_elem();
+				sv = sv.wrapping_sub(v);
+				sr = sr.wrapping_sub(r);
+				inputs.push(CommitWrapper::from(c));
+				i += 1;
+			}
+			let mut outputs = Vec::new();
+			let mut all_proofs = true;
+			let mut any_cb_out = false;
+			i = 0;
+			while i < NOUT {
+				let (c, v, r) = k::any_elem();
+				sv = sv.wrapping_add(v);
+				sr = sr.wrapping_add(r);
+				let p: bool = nd::any();
+				let f: bool = nd::any();
+				all_proofs &= p;
+				any_cb_out |= f;
+				outputs.push(Output::new(of(f), c, k::proof(p)));
+				i += 1;
+			}
+			let mut kernels = Vec::new();
+			let mut kv = 0u16;
+			let mut kr = 0u16;
+			let mut fees = 0u64;
+			let mut all_sigs = true;
+			let mut any_cb_kern = false;
+			i = 0;
+			while i < NK {
+				let (c, v, r) = k::any_elem();
+				kv = kv.wrapping_add(v);
+				kr = kr.wrapping_add(r);
+				let (feat, fee) = k::any_features(true);
+				fees += fee;
+				any_cb_kern |= matches!(feat, KernelFeatures::Coinbase);
+				let s: bool = nd::any();
+				all_sigs &= s;
+				kernels.push(TxKernel { features: feat, excess: c, excess_sig: k::sig(s) });
+				i += 1;
+			}
+			let off: u16 = nd::any();
 			let tx = Transaction {
 				offset: BlindingFactor::from_secret_key(m::key_of(off)),
-				body: TransactionBody {
-					inputs: Inputs::CommitOnly(vec![CommitWrapper::from(ci)]),
-					outputs: vec![Output::new(of(f1), c1, k::proof(p1)), Output::new(of(f2), c2, k::proof(p2))],
-					kernels: vec![TxKernel { features: feat, excess: ck, excess_sig: k::sig(s1) }],
-				},
+				body: TransactionBody { inputs: Inputs::CommitOnly(inputs), outputs, kernels },
 			};
 			unsafe {
 				m::SIGS_ASKED = 0;
@@ -131,14 +183,12 @@ proof! {
 			}
 			let r = tx.validate(Weighting::AsTransaction);
 			if r.is_ok() {
-				let lhs_v = v1.wrapping_add(v2).wrapping_sub(vi).wrapping_add(fee as u16);
-				let lhs_r = r1.wrapping_add(r2).wrapping_sub(ri);
-				check!(lhs_v == vk && lhs_r == rk.wrapping_add(off), "accepted => outputs + fee - inputs == kernel excess + offset");
-				check!(s1, "accepted => the kernel signature is valid");
-				check!(p1 && p2, "accepted => every output's range proof is valid");
-				check!(unsafe { m::SIGS_ASKED } == 1 && unsafe { m::PROOFS_ASKED } == 2, "every signature and proof was handed to the verifier");
-				check!(!f1 && !f2, "accepted => no coinbase output in a transaction");
-				check!(!matches!(feat, KernelFeatures::Coinbase), "accepted => no coinbase kernel in a transaction");
+				check!(sv.wrapping_add(fees as u16) == kv && sr == kr.wrapping_add(off), "accepted => outputs + fee - inputs == kernel excesses + offset");
+				check!(all_sigs, "accepted => every kernel signature is valid");
+				check!(all_proofs, "accepted => every output's range proof is valid");
+				check!(unsafe { m::SIGS_ASKED } == NK && unsafe { m::PROOFS_ASKED } == NOUT, "every signature and proof was handed to the verifier");
+				check!(!any_cb_out, "accepted => no coinbase output in a transaction");
+				check!(!any_cb_kern, "accepted => no coinbase kernel in a transaction");
 			}
 			cover!(r.is_ok(), "a transaction is accepted");
 			cover!(r.is_err(), "a transaction is rejected");
@@ -148,7 +198,63 @@ proof! {
 	}
 }
 
+proof! {
+	[secp, hash_mix] fn body_validate_consults_oracles() {
+		// TransactionBody::validate == Ok => every kernel signature and every range proof was
+		// handed to the verifier and is valid, whatever the body shape (including no outputs)
+		#[cfg(kani)]
+		{
+			env::set_chain_type(grin_core::global::ChainTypes::Mainnet);
+			let mut inputs = Vec::new();
+			let mut i = 0;
+			while i < NIN {
+				let (c, _, _) = k::any_elem();
+				inputs.push(CommitWrapper::from(c));
+				i += 1;
+			}
+			let mut outputs = Vec::new();
+			let mut all_proofs = true;
+			i = 0;
+			while i < NOUT {
+				let (c, _, _) = k::any_elem();
+				let p: bool = nd::any();
+				all_proofs &= p;
+				outputs.push(Output::new(OutputFeatures::Plain, c, k::proof(p)));
+				i += 1;
+			}
+			let mut kernels = Vec::new();
+			let mut all_sigs = true;
+			i = 0;
+			while i < NK {
+				let (c, _, _) = k::any_elem();
+				let (feat, _) = k::any_features(false);
+				let s: bool = nd::any();
+				all_sigs &= s;
+				kernels.push(TxKernel { features: feat, excess: c, excess_sig: k::sig(s) });
+				i += 1;
+			}
+			let body = TransactionBody { inputs: Inputs::CommitOnly(inputs), outputs, kernels };
+			unsafe {
+				m::SIGS_ASKED = 0;
+				m::PROOFS_ASKED = 0;
+			}
+			let r = body.validate(Weighting::AsTransaction);
+			if r.is_ok() {
+				check!(all_sigs, "accepted => every kernel signature is valid");
+				check!(all_proofs, "accepted => every output's range proof is valid");
+				check!(unsafe { m::SIGS_ASKED } == NK, "every kernel signature was handed to the verifier");
+				check!(unsafe { m::PROOFS_ASKED } == NOUT, "every range proof was handed to the verifier");
+			}
+			cover!(r.is_ok(), "a body is accepted");
+			cover!(r.is_err(), "a body is rejected");
+			core::mem::forget(r);
+			core::mem::forget(body);
+		}
+	}
+}
+
 pub const HARNESSES: &[(&str, fn())] = &[
 	("c01::kernel_sums_iff_equation_1_2_1", kernel_sums_iff_equation_1_2_1),
-	("c01::tx_validate_sound_1_2_1", tx_validate_sound_1_2_1),
+	("c01::tx_validate_sound", tx_validate_sound),
+	("c01::body_validate_consults_oracles", body_validate_consults_oracles),
 ];
